@@ -61,20 +61,22 @@ def write_ws(root, name, chunks, derive):
         spans[cn] = sp
     open(os.path.join(ws, "Cargo.toml"), "w").write(
         "[workspace]\nresolver = \"2\"\nmembers = [" + ", ".join(f'"{m}"' for m in members) + "]\n"
-        "[profile.dev]\ndebug = false\nincremental = false\nopt-level = 0\n[profile.dev.build-override]\nopt-level = 1\ndebug = false\n")
+        "[profile.dev]\ndebug = false\nincremental = false\nopt-level = 0\n[profile.dev.build-override]\nopt-level = 1\ndebug = false\n"
+        # the optimised pass: the DERIVE is what matters (a proc-macro built for a release build has no overflow checks)
+        "[profile.release]\ndebug = false\nincremental = false\nopt-level = 0\n")
     shutil.copy(os.path.join(REPO, "Cargo.lock"), os.path.join(ws, "Cargo.lock"))
     open(os.path.join(ws, ".cargo", "config.toml"), "w").write(
         "[net]\noffline = true\n[build]\nrustflags = [\"--cfg\", \"enum_tools_verif\", \"--check-cfg\", \"cfg(enum_tools_verif)\"]\n")
     return ws, spans
 
 
-def peel(ws, spans, what, trace_env=None):
+def peel(ws, spans, what, trace_env=None, release=False):
     """build; every case with an error is 'rejected' and removed; repeat until the rest builds.
     returns {case_id: first error message}"""
     rejected = {}
     for rnd in range(12):
         t0 = time.time()
-        rc, msgs, err = run_rt.cargo_json(ws, ["--workspace", "--lib"], extra_env=trace_env if rnd == 0 else None)
+        rc, msgs, err = run_rt.cargo_json(ws, ["--workspace", "--lib"] + (["--release"] if release else []), extra_env=trace_env if rnd == 0 else None)
         errs = run_rt.errors_of(msgs)
         log(f"{what} round {rnd}: rc={rc} errors={len(errs)} {time.time() - t0:.1f}s")
         if rc == 0:
@@ -159,6 +161,28 @@ def compute(tier, seed):
         os.remove(ptrace)
     rej = peel(wsd, spd, "derive build", trace_env={"ENUM_TOOLS_VERIF_TRACE": ptrace} if hook_available() else None)
     ctl = peel(wsc, spc, "control build")
+    # the same verdicts from a derive built WITHOUT overflow checks (`cargo build --release` builds proc-macros that way):
+    # declarations with values near the limits of i64 / the repr, where the derive's own arithmetic can wrap
+    def wide(c):
+        return any(abs(v.get("val", 0)) >= 100000 for v in c["src"]["variants"])
+    sel = {p: [c for c in allcases if c["prop"] == p and wide(c)] for p in ("C11", "C12", "C14")}
+    cap = {"C11": 1200, "C12": 10 ** 9, "C14": 800} if tier == "quick" else {"C11": 6000, "C12": 10 ** 9, "C14": 4000}
+    relcases = []
+    for p, cs in sel.items():
+        k = max(1, -(-len(cs) // cap[p]))
+        relcases += [dict(c, id=c["id"] + 1000000, profile="release", note=c["note"] + " [derive built without overflow checks]") for c in cs[::k]]
+    chunks_r = [[] for _ in range(NCRATES)]
+    for i, c in enumerate(relcases):
+        chunks_r[i % NCRATES].append((c["id"], render_verdict.render(c, c["_repr"], derive=True)))
+    wsr, spr = write_ws(root, "vr", chunks_r, True)
+    rejr = peel(wsr, spr, "derive build (release)", release=True) if relcases else {}
+    for c in relcases:
+        if c["id"] in rejr:
+            rej[c["id"]] = rejr[c["id"]]
+        if c["id"] - 1000000 in ctl:
+            ctl[c["id"]] = ctl[c["id"] - 1000000]
+    log(f"verdict[{tier}]: {len(relcases)} of the cases repeated with an optimised derive")
+    allcases = allcases + relcases
     drift = pipeline_drift(ptrace)
     trace = os.path.join(root, "verdict.ndjson")
     shards, n, k = [], 0, 0
@@ -174,7 +198,7 @@ def compute(tier, seed):
             shards.append({"trace": path, "events": 0})
         ev = {"ev": "verdict", "case": c["id"], "prop": c["prop"], "src": c["src"], "cfg": c["cfg"],
               "accepted": c["id"] not in rej, "ctl": c["id"] not in ctl,
-              "ctlexp": c.get("ctl", "rust"), "msg": rej.get(c["id"], "")[:160]}
+              "ctlexp": c.get("ctl", "rust"), "msg": rej.get(c["id"], "")[:160], "profile": c.get("profile", "dev")}
         f.write(json.dumps(ev) + "\n")
         n += 1
     f.close()
@@ -184,7 +208,7 @@ def compute(tier, seed):
     out = []
     for v in viols:
         c = byid[v["case"]]
-        out.append({"props": v["props"], "why": v["why"], "case": v["case"], "msg": v["msg"], "note": c["note"],
+        out.append({"props": v["props"], "why": v["why"], "case": v["case"], "msg": v["msg"], "note": c["note"], "profile": c.get("profile", "dev"),
                     "attrs": " ".join(render_verdict.cfg_attr_lines(c["cfg"])), "repr": c["_repr"],
                     "rust": "\n".join(render_verdict.render(c, c["_repr"], True)[:40])})
     cov = collections.Counter(c["prop"] for c in allcases)
